@@ -440,9 +440,7 @@ func (fr *Frame) binop(st *State, op token.Token, a, b Term, opT, resT types.Typ
 	if isString(opT) {
 		switch op {
 		case token.ADD:
-			u.ufunc("str_concat", []string{"Str", "Str"}, "Str")
-			u.axiom("(forall ((a Str) (b Str)) (! (= (str_len (str_concat a b)) (+ (str_len a) (str_len b))) :pattern ((str_concat a b))))")
-			return app("Str", "str_concat", a, b)
+			return u.strConcat(a, b)
 		case token.LSS, token.LEQ, token.GTR, token.GEQ:
 			u.ufunc("str_lt", []string{"Str", "Str"}, "Bool")
 			u.axiom("(forall ((a Str) (b Str)) (! (=> (str_lt a b) (not (str_lt b a))) :pattern ((str_lt a b))))")
